@@ -56,6 +56,7 @@ class ADef(Abstract):
         d["deps"] = list(deps)
         d["composite_type"] = None
         d["fail"] = fail
+        d["prints"] = False
         world.defs.append(self)
 
     # ---- the modelled interface
@@ -65,6 +66,9 @@ class ADef(Abstract):
             return self.composite_type
         if self.fail:
             raise Raised(self.fail, ast.Constant(value=None))
+        if self.__dict__.get("prints") and print_output_handler is not None:
+            # an evaluated `@print` on line 7 of this file: delivered through the (line, text) handler read() was given
+            print_output_handler(7, "printed by " + self.label)
         for dep in self.deps:
             # what the builder does when a reference is resolved: it reads the dependency and tells the visitors
             dep.read(lookup_definitions, definition_visitors, print_output_handler, allow_unregulated_fixed_port_id, **kw)
@@ -166,12 +170,25 @@ class VisitorLog(Abstract):
         self.calls.append((a, b))
 
 
+CONTENT_ACCESS: List[str] = []  # file contents touched while constructing definition objects (must stay empty)
+
+
 def own_definition(ctx: Ctx, full_name: str, major: int, minor: int, root: str = "/w") -> Any:
     """an abstract DSDLDefinition built by the class's own constructor from a syntactic path"""
     cls = ctx.cls("_dsdl_definition.DSDLDefinition")
     comps = full_name.split(".")
+    base = _hook(ctx, cls.module, [])
+
+    def hook(e: ast.expr, f: Folder) -> Any:
+        if isinstance(e, ast.Call):
+            name = dotted(e.func) or ""
+            if name == "open" or name.split(".")[-1] in ("read_text", "read_bytes") or (name.split(".")[-1] == "parse" and name.split(".")[0] not in f.env):
+                CONTENT_ACCESS.append("%s during the construction of %s" % (name, full_name))
+                return Sym(read=lambda: "TEXT", __enter__=lambda: None)
+        return base(e, f)
+
     try:
-        return construct(ctx, cls, APath("%s/%s.%d.%d.dsdl" % (root, "/".join(comps), major, minor)), APath("%s/%s" % (root, comps[0])), hook=_hook(ctx, cls.module, []))
+        return construct(ctx, cls, APath("%s/%s.%d.%d.dsdl" % (root, "/".join(comps), major, minor)), APath("%s/%s" % (root, comps[0])), hook=hook)
     except (Raised, Unfoldable) as ex:
         raise AnalysisError("cannot evaluate DSDLDefinition(...) over a syntactic path: %s" % ex)
 
